@@ -16,6 +16,39 @@ def sh(cmd, **kw):
     return subprocess.run(cmd, stdout=subprocess.PIPE, stderr=subprocess.STDOUT, text=True, **kw)
 
 
+def harvest(sid, prop, viol_line):
+    """keep the input that exposed a seeded change as a corpus line of the property (corpus/<prop>/seeded-<id>.ops): the
+    corpus runs first on every check, so the detection no longer depends on what the generator happens to draw for a seed"""
+    import re
+    m = re.search(r"replay=(\S+)", viol_line)
+    if not m or not os.path.exists(m.group(1)):
+        return
+    path = m.group(1)
+    try:
+        body = json.load(open(path))
+        out = os.path.join(V, "corpus", prop, f"seeded-{sid}.ops")
+        lines = []
+        for it in body.get("lines", []):
+            l = it.get("line", "")
+            if not l or l.startswith("<") or l.startswith("#"):
+                continue
+            inp = l.split(" | ")[0].rstrip()
+            if len(inp) < 60000 and inp not in lines:
+                lines.append(inp)
+            if len(lines) >= 2:
+                break
+        if lines and not os.path.exists(out):
+            os.makedirs(os.path.dirname(out), exist_ok=True)
+            with open(out, "w") as f:
+                f.write(f"# inputs on which the check of {prop} exposed the seeded change {sid} (must pass on the unchanged tree)\n")
+                f.write("\n".join(lines) + "\n")
+    finally:
+        try:
+            os.remove(path)
+        except OSError:
+            pass
+
+
 def main():
     d = sys.argv[1].rstrip("/")
     if not os.path.isabs(d):
@@ -45,6 +78,7 @@ def main():
         env["VERIF_REPO"] = wt
         env["VERIF_EVIDENCE_DIR"] = f"/tmp/seed-evidence-{os.getpid()}"
         env["VERIF_BUILD_DIR"] = f"/tmp/seed-build-{os.getpid()}"
+        env["VERIF_REPLAY_SUFFIX"] = "-" + os.path.basename(d)
     st = sh(["git", "-C", REPO, "status", "--porcelain", "--untracked-files=no"]).stdout.strip()
     if st:
         print("refusing: the tree has uncommitted changes:\n" + st)
@@ -63,6 +97,8 @@ def main():
             results[p] = dict(exit=c.returncode, violation=viol[0] if viol else None, wall_s=round(time.time() - t0, 1),
                               tail=c.stdout.strip().split("\n")[-4:])
             print(p, "->", "DETECTED" if viol else "missed", viol[0] if viol else "", f"({results[p]['wall_s']}s)")
+            if viol and not in_repo:
+                harvest(os.path.basename(d), p, viol[0])
     finally:
         if wt:
             sh(["git", "-C", "/repo", "worktree", "remove", "--force", wt])
